@@ -19,13 +19,13 @@ CHECKS = {
    "5/C02"),
  "C03": ("vrt",
    "bounded-exhaustive enumeration of SEQUENCE/SET shapes x presence patterns with random payloads, preamble/reference/decode oracles",
-   "All 142 SEQUENCE + 142 SET shapes with <= 3 components (5 in thorough) are compiled through the real pipeline; for each all 2^k presence patterns x 3 payloads are encoded: preamble computed from the shape, full bits == reference, decode returns the presence written, refusal only ExtensionFieldsInconsistent for the documented pattern.",
+   "All 142 SEQUENCE + 142 SET shapes with <= 3 components are compiled through the real pipeline; for each all 2^k presence patterns x 3 payloads are encoded: preamble computed from the shape, full bits == reference, decode returns the presence written, refusal only ExtensionFieldsInconsistent for the documented pattern - and for that pattern the reference encoder's bits (what a peer may send) must decode to the pattern.",
    "Component types rotate through six small types; shapes beyond N components are not covered.",
    "5/C03"),
  "C05": ("vrt",
    "property-based cross-version testing on compiled schema pairs with a sentinel message and projection/lift oracles",
-   "60 compiled (V1, V2) pairs covering SEQUENCE/SET/CHOICE/ENUMERATED, 0..2 pre-existing and 1..8 appended additions in three open-type length classes, four placements; generated values of either version are written with a sentinel behind them and read by the other version: content == projection/lift on the abstract schema, reader stops at the end of the message, sentinel decodes, writer bits == X.691.",
-   "Pairs are a fixed family; additions >= 16384 octets fall under the open known finding about fragmented open types.",
+   "64 compiled (V1, V2) pairs covering SEQUENCE/SET/CHOICE/ENUMERATED, 0..2 pre-existing and 1..8 appended additions in three open-type length classes, four placements, plus an untagged CHOICE inside a SET with explicit tags whose appended alternatives have smaller tags than all root alternatives; generated values of either version are written with a sentinel behind them and read by the other version: content == projection/lift on the abstract schema, reader stops at the end of the message, sentinel decodes, writer bits == X.691.",
+   "Pairs are a fixed family (grown after seeded changes showed gaps, DESIGN.md 0.6); additions >= 16384 octets fall under the open known finding about fragmented open types.",
    "5/C05"),
  "C06": ("vrt",
    "property-based negative testing: single-node constraint violations derived from generated valid values, plus forged CHOICE/ENUMERATED indices",
@@ -39,7 +39,7 @@ CHECKS = {
    "5/C10"),
  "C20": ("vprim",
    "enumeration of boundary families + proptest-generated item sequences, round-trip and byte-consumption oracle",
-   "All listed lengths, tags (4 classes x 0..30), booleans and every boolean content octet, i64/u64 boundary families through the raw primitives and through BasicWriter/BasicReader with Integer<i8..u64>, Boolean and Enumerated (1..300 items, every index), alone and in generated sequences of 2..8 items in one buffer: value read == value written, bytes consumed == bytes written, nothing remains.",
+   "All listed lengths, tags (4 classes x 0..30), booleans and every boolean content octet, i64/u64 boundary families through the raw primitives and through BasicWriter/BasicReader with Integer<i8..u64>, Boolean and Enumerated (1..300 items, non-extensible and extensible, every index), and Integer / Boolean / Enumerated whose constraint carries a tag of each of the four classes, alone and in generated sequences of 2..8 items in one buffer: value read == value written, bytes consumed == bytes written, nothing remains.",
    "Integers are read back with the byte count the writer produced (the raw primitives carry no length).",
    "5/C20"),
  "C11": ("vprim",
@@ -54,7 +54,7 @@ CHECKS = {
 
  "C04": ("vrt",
    "property-based fuzzing (proptest byte / fault generators, shrinking) of the three decoders with no-panic, over-read, allocation-bound and watchdog oracles",
-   "UperReader and ProtobufReader for every type of the compiled zoo and the DER reader primitives are fed random byte strings with a random declared bit length and valid encodings of generated values carrying 1..3 faults (truncate to a bit, flip, insert, delete, overwrite with boundary bytes, duplicate a chunk). Per case: no panic, position <= declared length, same result when all bits beyond the declared length are flipped and bytes appended, peak allocation <= 64 MiB + 64 KiB x input bytes (counting global allocator), no case over 10 s (confirmed 3x in isolation). Sampled exploration; coverage-guided libFuzzer targets extend it in the thorough tier.",
+   "UperReader and ProtobufReader for every type of the compiled zoo and the DER reader primitives are fed random byte strings (incl. hostile self-delimiting numbers at every bit offset and TLV-shaped DER input with every length form) with a random declared bit length and valid encodings of generated values carrying 1..3 faults (truncate to a bit, flip, insert, delete, overwrite with boundary bytes, duplicate a chunk). Per case: no panic, position <= declared length, same result when all bits beyond the declared length are flipped and bytes appended, peak allocation <= 64 MiB + 64 KiB x input bytes (counting global allocator), no case over 10 s (confirmed 3x in isolation). Sampled exploration; coverage-guided libFuzzer targets extend it in the thorough tier.",
    "A hang is reported as violation only after three isolated confirmations; otherwise exit 2. Allocation bound is the harness's reading of 'bounded'.",
    "5/C04"),
  "C07": ("vfront",
@@ -69,22 +69,22 @@ CHECKS = {
    "5/C08"),
  "C09": ("vfront",
    "property-based testing with rustc as oracle: generated modules are compiled (cargo check, offline) through asn_to_rust!, failures minimised per module",
-   "Generated front-end-profile modules with an identifier pool containing every Rust keyword, prelude-like names and hyphen variants, every DEFAULT literal kind, value references, plus a sample of the zoo. A module accepted by the in-process front end must compile: one crate with one file per module is cargo-checked against the current tree, JSON diagnostics are mapped back to modules, failing modules removed and the batch re-checked until clean; each failing module is then greedily minimised.",
+   "A systematic identifier table (every Rust keyword and prelude-like name as component - mandatory / OPTIONAL / DEFAULT / in front of and behind the extension marker -, as CHOICE alternative and as ENUMERATED item; ENUMERATED items with non-idempotent name mangling as DEFAULT), generated front-end-profile modules with an identifier pool, every DEFAULT literal kind, value references, plus a sample of the zoo. A module accepted by the in-process front end must compile: one crate with one file per module is cargo-checked against the current tree, JSON diagnostics are mapped back to modules, failing modules removed and the batch re-checked until clean; each failing module is then greedily minimised.",
    "Slow oracle (rustc): the quick tier covers ~150 modules per run. Eight open findings exclude their shapes by construction (probed on every run).",
    "5/C09"),
  "C12": ("vfront",
    "metamorphic property testing (proptest): literal module vs. referencing variant across all load orders, plus negative variants",
-   "A random subset of the literal sites of a generated module is replaced by value references assigned before/after the use or in 1..3 sibling modules imported by name, by OID or both; for every load order into MultiModuleResolver (and try_resolve) the resolved definitions equal those of the literal module. Negative variants (missing assignment, removed import with a same-named symbol elsewhere, exporter not loaded, wrong value type) must give Err for every load order.",
+   "A random subset of the literal sites of a generated module (in every fourth case with ranges / sizes made degenerate n..n) is replaced by value references assigned before/after the use or in 1..3 sibling modules imported by name, by OID or both; for every load order into MultiModuleResolver (and try_resolve) the resolved definitions equal those of the literal module. Negative variants (missing assignment, removed import with a same-named symbol elsewhere, exporter not loaded, BOOLEAN / character string / hstring / bstring where an integer is needed) must give Err for every load order.",
    "Load orders are enumerated completely up to 4 modules.",
    "5/C12"),
  "C13": ("vfront",
    "metamorphic property testing (proptest) over token layouts with comments; token-sequence, model and Location oracles",
-   "Generated modules are printed as lexical items; a layout picks a separator per boundary from {empty, blank, tab, LF, CRLF, CR, line / block / nested block comments with varied text and adjacency}. Token sequence and resolved model must equal those of the plain layout and (ASCII) each token's Location must equal the line/column where the printer put it.",
+   "Generated modules are printed as lexical items; a layout picks a separator per boundary from {empty, blank, tab, LF, CRLF, CR, long runs of blanks / line breaks (columns and lines beyond 255 / 4095 / 65535), line / block / nested block comments with varied text (incl. continuation lines starting with --) and adjacency}. Token sequence and resolved model must equal those of the plain layout and (ASCII) each token's Location must equal the line/column where the printer put it.",
    "Location columns are compared for ASCII layouts only (non-ASCII comments are generated but only token/model equality is judged there).",
    "5/C13"),
  "C14": ("vfront",
    "mutation-based fuzzing of the front end (proptest edit generators over valid texts + token soups) with a no-panic / error-location oracle and watchdog",
-   "Generator output and the literal modules of /repo/tests receive 1..4 token- or character-level edits (delete, duplicate, swap, insert, replace, truncate, over-long number, open comment) or are replaced by token soups; Tokenizer -> Model::try_from -> try_resolve / MultiModuleResolver -> to_rust -> to_protobuf must return Ok or Err: no panic (except the documented unclosed-comment panic on a really unterminated '/*'), error tokens inside the input, no case over 10 s.",
+   "Generator output and the literal modules of /repo/tests receive 1..4 edits - syntactic (delete, duplicate, swap, insert, replace, truncate, over-long number, open comment) and well-formed-but-odd (swap two numbers, boundary numbers, import from the own module, non-ASCII characters inside literals, snippets with alias cycles / recursive types / cyclic values / unknown names / duplicates) - or are replaced by token soups; a twin module makes every import mutual; Tokenizer -> Model::try_from -> try_resolve / MultiModuleResolver -> to_rust -> to_protobuf must return Ok or Err: no panic (except the documented unclosed-comment panic on a really unterminated '/*'), error tokens inside the input, no case over 10 s.",
    "Sampled; coverage-guided libFuzzer target extends it in the thorough tier.",
    "5/C14"),
  "C15": ("vfront",
@@ -94,7 +94,7 @@ CHECKS = {
    "5/C15"),
  "C16": ("vfront",
    "bounded-exhaustive permutation testing on the macro expansion (part a) + property-based differential testing of compiled SET types against the reference codec (part b)",
-   "Part a: for generated multisets of 2..5 components (four tag classes, untagged builtin types, untagged references to tagged/untagged definitions/CHOICE/SEQUENCE, with/without extension marker) ALL root permutations are printed as SET, expanded through asn_to_rust -> syn -> parse_asn_definition -> expand; write_seq/read_seq order and TAG constants == own X.680 8.6 implementation. Part b (vrt): a compiled family in three permutations each; UPER bits and presence-bit order == reference codec.",
+   "Part a: for every pair of untagged candidates with different outermost tags (builtin types, inline SEQUENCE / SEQUENCE OF / SET / SET OF / ENUMERATED, references incl. an extensible untagged CHOICE whose extension alternative has the smallest tag) next to one tagged component, and for generated multisets of 2..5 components (four tag classes, OPTIONAL / DEFAULT, with/without extension marker) ALL root permutations are printed as SET, expanded through asn_to_rust -> syn -> parse_asn_definition -> expand; write_seq/read_seq order and TAG constants == own X.680 8.6 implementation. Part b (vrt): a compiled family in three permutations each; UPER bits and presence-bit order == reference codec.",
    "Extension additions are generated with tags ascending in textual order (where canonical order and order of definition coincide).",
    "5/C16"),
  "C17": ("vrt",
@@ -104,7 +104,7 @@ CHECKS = {
    "5/C17"),
  "C18": ("vrt",
    "property-based differential testing: independent proto3 parser/validator on generated .proto files (part a, protoc as second opinion) + independent schema-directed wire decoder on the writer's bytes (part b)",
-   "Part a (vfront): generated modules -> .proto of ProtobufDefGenerator -> own proto3 parser: syntax, unique names/numbers incl. oneof members and the oneof's own name, legal numbers, first enum value 0, references exist, no repeated-in-oneof / repeated repeated, valid package. Part b: for every compiled zoo type the .proto of its module is parsed and the bytes ProtobufWriter produced for generated values are decoded by an independent wire decoder that takes field numbers, scalar types, repeated-ness, oneof membership, enum numbers and nesting from the .proto only; undeclared numbers, wrong wire types, several oneof members are violations; decoded value == written value after pnorm.",
+   "Part a (vfront): generated modules -> .proto of ProtobufDefGenerator -> own proto3 parser: syntax, unique names/numbers incl. oneof members and the oneof's own name, legal numbers, first enum value 0, references exist, no repeated-in-oneof / repeated repeated, valid package; module pairs with imported types are validated as a file set (package-qualified names, import lines). Part b: for every compiled zoo type the .proto of its module is parsed and the bytes ProtobufWriter produced for generated values are decoded by an independent wire decoder that takes field numbers, scalar types, repeated-ness, oneof membership, enum numbers and nesting from the .proto only; undeclared numbers, wrong wire types, several oneof members are violations; decoded value == written value after pnorm.",
    "Components are paired with declared fields by name (case/punctuation-insensitive), by position where names do not pair up. BIT STRING uses asn1rs's bytes+bit-count convention. Top-level ENUMERATED has no message. 32-bit varints are truncated as a conforming parser does.",
    "5/C18"),
  "C19": ("vrt",
